@@ -26,7 +26,7 @@ ClipPolys == <<
   << <<0,0>>, <<6,0>>, <<6,4>>, <<4,4>>, <<4,2>>, <<2,2>>, <<2,4>>, <<0,4>> >>,    \* U
   << <<0,4>>, <<2,2>>, <<4,4>>, <<6,2>>, <<4,0>>, <<2,1>>, <<0,0>> >> >>           \* zig-zag, clockwise
 Coarse == {-1, 1, 2, 4, 5, 7}
-EndPts == IF Big THEN (-1..7) \X (-1..5) ELSE Coarse \X {-1, 1, 2, 4, 5}
+EndPts == IF Big THEN (-1..7) \X (-1..7) ELSE Coarse \X {-1, 1, 2, 4, 5}
 \* unordered pairs in one orientation plus a few reversed ones
 Less(p, q) == p[1] < q[1] \/ (p[1] = q[1] /\ p[2] < q[2])
 SegPairs == {ab \in EndPts \X EndPts : ab[1] # ab[2] /\ (Less(ab[1], ab[2]) \/ (ab[1][1] + ab[2][2]) % 5 = 0)}
@@ -62,6 +62,8 @@ Flat3 == << << <<0,0>>, <<3,0>>, <<0,3>> >>, << <<0,0>>, <<3,0>>, <<3,3>>, <<0,3
             << <<0,1>>, <<3,0>>, <<1,3>> >> >>                      \* convex only: polygons_3d does not support non-convex polygons
 Poly3Ids == {fp \in (1..Len(Frames3)) \X (1..Len(Flat3)) : (fp[1] = 3 => fp[2] = 1) /\ (Big \/ (fp[1] + fp[2]) % 2 = 0)}
 Poly3(fp) == [i \in 1..Len(Flat3[fp[2]]) |-> Embed(Frames3[fp[1]], Flat3[fp[2]][i])]
+Shifts == IF Big THEN {<<0,0,0>>, <<1,0,0>>, <<0,1,0>>, <<0,0,-1>>} ELSE {<<0,0,0>>}
+ShiftP(poly, d) == [i \in 1..Len(poly) |-> Add3(poly[i], d)]
 \* the plane of the polygon is not the plane of a face of a cell of the tiling
 FaceInPlane(poly, face) == \A i \in 1..Len(face) : Height(poly, face[i], 1) = 0
 GenericPlane(poly, tiling) == \A c \in 1..Len(tiling) : \A f \in 1..Len(tiling[c]) : ~FaceInPlane(poly, tiling[c][f])
@@ -77,8 +79,9 @@ Inputs(fn) ==
              <<k, t>> \in {w \in (1..Len(ClipPolys)) \X Triples :
                              \A e \in {<<1,2>>, <<4,3>>, <<5,6>>} : ~OverlapsBoundary(ClipPolys[w[1]], w[2][e[1]], w[2][e[2]])}}
     [] fn = "polygons_by_polyhedron" ->
-         {[fn |-> fn, poly |-> Poly3(fp), cells |-> Tilings[t]] :
-             <<fp, t>> \in {w \in Poly3Ids \X (1..Len(Tilings)) : GenericPlane(Poly3(w[1]), Tilings[w[2]]) /\ (Big \/ w[2] \in {1, 3})}}
+         {[fn |-> fn, poly |-> ShiftP(Poly3(fp), d), cells |-> Tilings[t]] :
+             <<fp, t, d>> \in {w \in Poly3Ids \X (1..Len(Tilings)) \X Shifts :
+                                 GenericPlane(ShiftP(Poly3(w[1]), w[3]), Tilings[w[2]]) /\ Covers(Tilings[w[2]], ShiftP(Poly3(w[1]), w[3])) /\ (Big \/ w[2] \in {1, 3})}}
     [] OTHER -> {}
 Next == inp = Start /\ \E fn \in Fns : inp' \in Inputs(fn)
 Spec == Init /\ [][Next]_inp
